@@ -250,6 +250,55 @@ def check(prog, rep):
              and U(s.targets[0]) in ("self.cgcent", "self.fgcent", "self.gcent")}
     r3.add("grid-centres", all(v == "mol 1" for v in cents.values()) and len(cents) == 3, f"input file centres: {cents}",
            f"pdb2pqr/inputgen.py:{ei.lineno} (Elec.__init__)")
+    # parse_lines: decided on the model files (R7); its code shape is analysed only when the model evaluation is not possible
+    n_before = len(rep.rules)
+    n_def = len(rep.deferred)
+    rep.guarded(rule_model_sizing, prog, rep)
+    if len(rep.rules) == n_before or len(rep.deferred) > n_def:
+        rep.guarded(_parse_lines_shape, prog, rep, r3, cls)
+    # ------------------------------------------------------------------ R5
+    r5 = rep.rule("R5", "memory estimate multiplies all three grid dimensions", floor=1)
+    for rel, qual in (("inputgen.py", "Elec.__init__"), ("psize.py", "Psize.set_smallest"), ("psize.py", "Psize.__str__")):
+        if not prog.has_func(rel, qual):
+            continue
+        fn = prog.func(rel, qual).node
+        for n in walk_no_defs(fn):
+            if isinstance(n, ast.BinOp) and isinstance(n.op, (ast.Mult, ast.Div)) and not isinstance(parent(n), ast.BinOp):
+                subs = [x for x in ast.walk(n) if isinstance(x, ast.Subscript) and isinstance(x.slice, ast.Constant)]
+                bases = {U(x.value) for x in subs}
+                if len(subs) >= 2 and len(bases) == 1:
+                    idx = sorted(x.slice.value for x in subs)
+                    r5.add(f"mem|{qual}:{bases.pop()}", idx == [0, 1, 2], f"product {U(n)[:70]} uses indices {idx}",
+                           f"pdb2pqr/{rel}:{n.lineno} ({qual})")
+
+    # ------------------------------------------------------------------ R6
+    r6 = rep.rule("R6", "the APBS input names the PQR file just written", floor=4)
+    md = prog.func("main.py", "main_driver").node
+    dcall = next((c for c in calls_in(md) if U(c.func) == "io.dump_apbs"), None)
+    r6.add("main->dump_apbs", dcall is not None and U(dcall.args[0]) == "args.output_pqr",
+           f"main_driver calls io.dump_apbs({', '.join(U(a) for a in dcall.args) if dcall else ''})",
+           f"pdb2pqr/main.py:{dcall.lineno if dcall else md.lineno} (main_driver)")
+    pp = prog.func("main.py", "print_pqr").node
+    opens = [c for c in calls_in(pp) if U(c.func) == "open"]
+    r6.add("written-path", bool(opens) and U(opens[0].args[0]) == "args.output_pqr", "print_pqr opens args.output_pqr",
+           f"pdb2pqr/main.py:{pp.lineno} (print_pqr)")
+    da = prog.func("io.py", "dump_apbs").node
+    p0 = da.args.args[0].arg
+    icall = next((c for c in calls_in(da) if U(c.func) == "inputgen.Input"), None)
+    r6.add("dump_apbs->Input", icall is not None and U(icall.args[0]) == p0, f"Input({U(icall.args[0]) if icall else '?'}, ...)",
+           f"pdb2pqr/io.py:{da.lineno} (dump_apbs)")
+    sized = [U(c.args[0]) for c in calls_in(da) if U(c.func).endswith((".run_psize", ".parse_input")) and c.args]
+    r6.add("dump_apbs->psize", bool(sized) and set(sized) == {p0}, f"psize reads {sized}", f"pdb2pqr/io.py:{da.lineno} (dump_apbs)")
+    ii = prog.func("inputgen.py", "Input.__init__").node
+    a0 = ii.args.args[1].arg
+    chain = {U(s.targets[0]): U(s.value) for s in iter_stmts(ii.body) if isinstance(s, ast.Assign)}
+    ok = chain.get("self.pqrpath") == f"Path({a0})" and chain.get("self.pqrname") == "self.pqrpath.name"
+    istr = U(prog.func("inputgen.py", "Input.__str__").node)
+    r6.add("Input->mol-line", ok and "mol pqr {self.pqrname}" in istr, f"pqrname <- {chain.get('self.pqrname')} <- {chain.get('self.pqrpath')}",
+           f"pdb2pqr/inputgen.py:{ii.lineno} (Input)")
+
+
+def _parse_lines_shape(prog, rep, r3, cls):
     # extrema accumulate centre -/+ radius, from the right tokens
     pl = cls.methods["parse_lines"].node
     w = f"pdb2pqr/psize.py:{pl.lineno} (Psize.parse_lines)"
@@ -329,47 +378,6 @@ def check(prog, rep):
                f"store to {tgt} is reachable for a line that is neither ATOM nor HETATM (record tests found: {rec_atoms})",
                f"pdb2pqr/psize.py:{s.lineno} (Psize.parse_lines)")
 
-    # ------------------------------------------------------------------ R5
-    r5 = rep.rule("R5", "memory estimate multiplies all three grid dimensions", floor=1)
-    for rel, qual in (("inputgen.py", "Elec.__init__"), ("psize.py", "Psize.set_smallest"), ("psize.py", "Psize.__str__")):
-        if not prog.has_func(rel, qual):
-            continue
-        fn = prog.func(rel, qual).node
-        for n in walk_no_defs(fn):
-            if isinstance(n, ast.BinOp) and isinstance(n.op, (ast.Mult, ast.Div)) and not isinstance(parent(n), ast.BinOp):
-                subs = [x for x in ast.walk(n) if isinstance(x, ast.Subscript) and isinstance(x.slice, ast.Constant)]
-                bases = {U(x.value) for x in subs}
-                if len(subs) >= 2 and len(bases) == 1:
-                    idx = sorted(x.slice.value for x in subs)
-                    r5.add(f"mem|{qual}:{bases.pop()}", idx == [0, 1, 2], f"product {U(n)[:70]} uses indices {idx}",
-                           f"pdb2pqr/{rel}:{n.lineno} ({qual})")
-
-    rep.guarded(rule_model_sizing, prog, rep)
-    # ------------------------------------------------------------------ R6
-    r6 = rep.rule("R6", "the APBS input names the PQR file just written", floor=4)
-    md = prog.func("main.py", "main_driver").node
-    dcall = next((c for c in calls_in(md) if U(c.func) == "io.dump_apbs"), None)
-    r6.add("main->dump_apbs", dcall is not None and U(dcall.args[0]) == "args.output_pqr",
-           f"main_driver calls io.dump_apbs({', '.join(U(a) for a in dcall.args) if dcall else ''})",
-           f"pdb2pqr/main.py:{dcall.lineno if dcall else md.lineno} (main_driver)")
-    pp = prog.func("main.py", "print_pqr").node
-    opens = [c for c in calls_in(pp) if U(c.func) == "open"]
-    r6.add("written-path", bool(opens) and U(opens[0].args[0]) == "args.output_pqr", "print_pqr opens args.output_pqr",
-           f"pdb2pqr/main.py:{pp.lineno} (print_pqr)")
-    da = prog.func("io.py", "dump_apbs").node
-    p0 = da.args.args[0].arg
-    icall = next((c for c in calls_in(da) if U(c.func) == "inputgen.Input"), None)
-    r6.add("dump_apbs->Input", icall is not None and U(icall.args[0]) == p0, f"Input({U(icall.args[0]) if icall else '?'}, ...)",
-           f"pdb2pqr/io.py:{da.lineno} (dump_apbs)")
-    sized = [U(c.args[0]) for c in calls_in(da) if U(c.func).endswith((".run_psize", ".parse_input")) and c.args]
-    r6.add("dump_apbs->psize", bool(sized) and set(sized) == {p0}, f"psize reads {sized}", f"pdb2pqr/io.py:{da.lineno} (dump_apbs)")
-    ii = prog.func("inputgen.py", "Input.__init__").node
-    a0 = ii.args.args[1].arg
-    chain = {U(s.targets[0]): U(s.value) for s in iter_stmts(ii.body) if isinstance(s, ast.Assign)}
-    ok = chain.get("self.pqrpath") == f"Path({a0})" and chain.get("self.pqrname") == "self.pqrpath.name"
-    istr = U(prog.func("inputgen.py", "Input.__str__").node)
-    r6.add("Input->mol-line", ok and "mol pqr {self.pqrname}" in istr, f"pqrname <- {chain.get('self.pqrname')} <- {chain.get('self.pqrpath')}",
-           f"pdb2pqr/inputgen.py:{ii.lineno} (Input)")
 
 
 def check_column(prog, rep, r3, subline_expr, where):
@@ -423,20 +431,29 @@ def rule_model_sizing(prog, rep):
     import re as _re
     from ..guards import Flow
     from ..objinterp import ObjRunner
-    from .shared import PQR_MODEL_LINES, _pqr_line
+    from .shared import pqr_model
     r = rep.rule("R7", "model runs: extrema, charge, grid and memory report follow from the ATOM and HETATM records alone", floor=8)
     where = "pdb2pqr/psize.py (Psize.parse_lines .. __str__)"
-    small = PQR_MODEL_LINES
+    small, source = pqr_model(prog)
+    r.info["model_lines_formatted_by"] = source
     # a large system: the same atoms spread over ~200 A so that the memory ceiling is exceeded and a parallel solve is planned
-    big = list(PQR_MODEL_LINES[:-2])
     n0 = 100
-    for k, (dx, dy, dz) in enumerate(((180.0, 0.0, 0.0), (0.0, -150.0, 0.0), (0.0, 0.0, 160.0), (-90.0, 80.0, -70.0))):
-        rec = ("HETATM" if k % 2 else "ATOM", n0 + k, "C", "XXX", None, 500 + k, None, 20.0 + dx, 10.0 + dy, 5.0 + dz, 0.25, 1.5)
-        keys = ("type", "serial", "name", "res_name", "chain_id", "res_seq", "ins_code", "x", "y", "z", "charge", "radius")
-        big.append((_pqr_line(*rec), dict(zip(keys, rec))))
-    big += PQR_MODEL_LINES[-2:]
-    one = [PQR_MODEL_LINES[0], PQR_MODEL_LINES[1]] + list(PQR_MODEL_LINES[-2:])  # a single atom: every count sits on the 33-point floor
-    for label, model in (("one-atom", one), ("small", small), ("large", big)):
+    extra = tuple(("HETATM" if k % 2 else "ATOM", n0 + k, "C", "XXX", None, 500 + k, None, 20.0 + dx, 10.0 + dy, 5.0 + dz, 0.25, 1.5)
+                  for k, (dx, dy, dz) in enumerate(((180.0, 0.0, 0.0), (0.0, -150.0, 0.0), (0.0, 0.0, 160.0), (-90.0, 80.0, -70.0))))
+    big, _ = pqr_model(prog, extra)
+    one = [small[0], small[1]] + list(small[-2:])  # a single atom: every count sits on the 33-point floor
+    from .shared import respaced
+    try:
+        ws = respaced(prog, [ln for ln, _ in small])
+        small_ws = [(ln, w) for ln, (_, w) in zip(ws, [x for x in small if x[1] is not None])]  # print_pqr keeps the records only
+        if len(small_ws) != len([x for x in small if x[1] is not None]):
+            small_ws = None
+    except AnalysisError:
+        small_ws = None
+    # fixed-width columns that touch: a coordinate of eight characters next to its neighbour (default layout only)
+    wide, _ = pqr_model(prog, (("ATOM", 30, "CA", "WID", None, 1, None, 1.0, 1234.567, 3.0, 0.25, 1.5), ("ATOM", 31, "CB", "WID", None, 1, None, 1001.0, 1234.567, 2999.999, 0.0, 1.0)))
+    models = [("one-atom", one), ("small", small), ("large", big), ("touching columns", wide)] + ([("small, --whitespace layout", small_ws)] if small_ws else [])
+    for label, model in models:
         atoms = [w for _, w in model if w is not None]
         run = ObjRunner(prog, "psize.py")
         try:
@@ -468,7 +485,7 @@ def rule_model_sizing(prog, rep):
         got = float(next(g for g in m.groups() if g)) if m else None
         r.add(f"{label}|memory-report", got is not None and abs(got - want_mb) <= 0.0006,
               f"the report states {got} MB for the {ng[0]} x {ng[1]} x {ng[2]} grid (200 bytes per point: {want_mb:.3f} MB)", where)
-        if label == "large":
+        if label in ("large",):
             ns = p["nsmall"]
             r.add("large|parallel-plan", "Parallel solve required" in text and all(isinstance(n, int) and (n - 1) % 32 == 0 and n >= 33 for n in ns),
                   f"the large model needs a parallel solve; per-processor grid {ns} must again be integers of the form 32k+1", where)
